@@ -27,6 +27,8 @@ def run(rep, tier):
                       "-max(), never with numeric_limits<floating>::min() (smallest positive value)")
     rep.rule("R13.5", "periodic wrap maps onto [0,N-1] by a true modulo; the non-periodic branch leaves (return/continue) "
                       "without touching the bins")
+    rep.rule("R13.6", "weight conservation across the object's history: only the accumulation API (Initialize*, Process*, Normalize, Clear) may write the bin table; "
+                      "accessors (set*/get*/is*/has*) and const members never reach a function that writes or re-creates data_")
     units = [front.repo("tools/src/libtools/histogramnew.cc"), front.repo("tools/src/libtools/histogram.cc")]
     F = Facts(front.export(units))
     rep.units = units
@@ -104,6 +106,40 @@ def run(rep, tier):
     norm = F.one(T + "HistogramNew::Normalize")
     rep.analysed(norm)
     check_normalize_new(rep, norm)
+
+    # who-may-write the bins: direct writers = non-const members that touch data_; closure over member calls inside the class
+    members = {}
+    for f_ in F.funcs:
+        if f_.qname.startswith(T + "HistogramNew::") and f_.j.get("template") != "pattern":
+            members.setdefault(f_.qname.split("::")[-1], []).append(f_)
+    direct = set()
+    calls_ = {}
+    for nm_, fs_ in members.items():
+        for f_ in fs_:
+            body_nodes = list(f_.walk())
+            touches = any(n.get("k") == "member" and n.get("fname", n.get("field")) == "data_" for n in body_nodes)
+            returns_ref_only = nm_ == "data"
+            if touches and not f_.j.get("const") and not returns_ref_only:
+                direct.add(nm_)
+            calls_.setdefault(nm_, set()).update((n.get("callee") or "").split("::")[-1] for n in body_nodes
+                                                 if n.get("k") in ("mcall", "call") and (n.get("callee") or "").startswith(T + "HistogramNew::"))
+    writers = set(direct)
+    changed_ = True
+    while changed_:
+        changed_ = False
+        for nm_, cs_ in calls_.items():
+            if nm_ not in writers and cs_ & writers:
+                writers.add(nm_)
+                changed_ = True
+    rep.floor("R13.6", len(direct), 4, "members of HistogramNew that write data_ directly (Initialize_, Process, Normalize, Clear)")
+    accessors = sorted(nm_ for nm_ in members if re.match(r"^(set|get|is|has)[A-Z]", nm_) or all(f_.j.get("const") for f_ in members[nm_]))
+    for nm_ in accessors:
+        via = sorted(calls_.get(nm_, set()) & writers)
+        rep.check(nm_ not in writers, "R13.6", "accessor-leaves-bins|" + nm_, "%s does not reach a writer of data_" % nm_,
+                  "HistogramNew::%s %s: calling it on a histogram that already holds data changes or wipes the accumulated weight (Initialize, Process.., %s, Process..: "
+                  "the bin sum no longer equals the accepted weight)" % (nm_, ("calls " + ", ".join(via) + ", which (re)writes the bin table") if via else "writes data_ itself", nm_),
+                  members[nm_][0].loc(), sample=(nm_ == "setPeriodic"))
+    rep.floor("R13.6", len(accessors), 8, "accessors / const members of HistogramNew")
 
     # ================================================================ legacy Histogram
     pd = F.one(T + "Histogram::ProcessData")
